@@ -70,7 +70,7 @@ fn main() {
             for _ in 0..count {
                 let sc = worker::make_script(&args[2], fam, Tier::Quick, seed, i, 1);
                 let o = worker::run_script(&sc, false);
-                println!("{i} {:016x} {:016x} v={} nv={}", o.trace_hash, o.full_hash, o.violations.len(), o.virtual_ms);
+                println!("{i} {:016x} {:016x} v={} nv={}{}", o.trace_hash, o.full_hash, o.violations.len(), o.virtual_ms, if o.inconclusive { format!(" inconclusive {:?}", o.log.first()) } else { String::new() });
                 i += step;
             }
         }
